@@ -2,12 +2,13 @@
 C04  Snapshot store plus log always rebuilds the applied state.
 
 Model: RqModel/Model/SnapSM.lean (store/store.go fsmSnapshot / OnRelease / fsmRestore / LOAD /
-ReadFrom / Open as of the `fix:` commit 6482ad3; snapshot sink, ResolveFiles, Restore).
-Lemmas: RqModel/Lemmas/SnapSM.lean.
+ReadFrom / Open as of the `fix:` commits 6482ad3 and bb0a5c5 = code level 2; snapshot sink incl. its
+re-check of the full-needed requirement, ResolveFiles, Restore). Lemmas: RqModel/Lemmas/SnapSM.lean.
 
-Histories are arbitrary lists of `Op`: write batches, no-ops, snapshots with any `Outcome`
-(installed; Persist not invoked; Persist failing before / after the staged WAL is consumed),
-loads, boots, snapshot installs, reaps, restarts.
+Histories are arbitrary lists of `Op`: write batches, no-ops, FSM.Snapshot() (`snapBegin`) and —
+after any number of further writes / loads / no-ops, as hashicorp/raft allows — its Persist+Close or
+Release (`snapEnd` with any `Outcome`: installed; Persist not invoked; Persist failing before /
+after the staged WAL is consumed), user snapshots, loads, boots, snapshot installs, reaps, restarts.
 -/
 import RqModel.Lemmas.SnapSM
 import RqModel.Gen.StoreStaging
@@ -16,21 +17,23 @@ open RqModel.SnapSM
 
 /-- For every history: restoring the newest snapshot (one full database followed by its chain
 of WAL segments, each checkpointed into exactly the database it was cut from) and replaying the
-log after it yields exactly the applied database; and, unless a full snapshot is required
-anyway, the staged WAL segments are exactly the changes between that restored snapshot and the
-database file — so the next incremental snapshot extends the chain correctly. -/
-theorem chain_inv (ops : List Op) : ChainInv (run true {} ops) :=
+log after it yields exactly the applied database; unless a full snapshot is due anyway (the
+FULL_NEEDED flag or the modification-time guard), the staged WAL segments are exactly the changes
+between that restored snapshot and the database file — so the next incremental snapshot extends
+the chain correctly; and a snapshot that has been captured but not yet persisted will satisfy
+both when it is installed, whatever was applied in between. -/
+theorem chain_inv (ops : List Op) : ChainInv (run 2 {} ops) :=
   run_inv ops {} chainInv_init
 
 /-- Hence a node restarting from the snapshot store after any history opens and holds exactly
 what it had applied … -/
 theorem restart_rebuilds_applied_state (ops : List Op) :
-    let s := run true {} ops
-    (step true s .restart).2 = "ok" ∧ (step true s .restart).1.db = s.db := by
+    let s := run 2 {} ops
+    (step 2 s .restart).2 = "ok" ∧ (step 2 s .restart).1.db = s.db := by
   intro s
   have h := chain_inv ops
   have hre := h.restore
-  cases hr : resolve (run true {} ops).snaps with
+  cases hr : resolve (run 2 {} ops).snaps with
   | none => have := h.resolves; rw [hr] at this; cases this
   | some r =>
     rw [hr] at hre
@@ -41,49 +44,68 @@ theorem restart_rebuilds_applied_state (ops : List Op) :
 
 /-- … and a follower that has a snapshot installed holds exactly the snapshot's database, with
 nothing stale left to leak into its next incremental snapshot. -/
-theorem install_gives_snapshot_state (ops : List Op) (c : C) :
-    let s := (step true (run true {} ops) (.install c)).1
+theorem install_gives_snapshot_state (ops : List Op) (c : C) (hp : (run 2 {} ops).pend = none) :
+    let s := (step 2 (run 2 {} ops) (.install c)).1
     resolve s.snaps = some c ∧ s.db = c ∧ s.staged = [] := by
-  simp [step, resolve_snoc, resolveStep]
+  simp [step, hp, resolve_snoc, resolveStep]
 
-/-- the history of the design pass: full snapshot; write; an incremental snapshot that is never
-persisted; load; write; snapshot; write; snapshot -/
-def witnessHistory : List Op :=
+/-! ### the defects repaired in /repo, kept as checked counterexamples on the older code levels -/
+
+/-- 6482ad3 (level 0 → 1): a staged WAL left by a snapshot that was not persisted survives the full
+snapshot after a load, resp. a snapshot install, and is packaged into the next incremental. -/
+def staleAfterLoad : List Op :=
   [.write 1, .snapshot .ok, .write 2, .snapshot .notInvoked, .load [3], .write 4, .snapshot .ok,
    .write 5, .snapshot .ok]
 
-def witnessInstall : List Op :=
+def staleAfterInstall : List Op :=
   [.write 1, .snapshot .ok, .write 2, .snapshot .failBefore, .install [3], .write 4, .snapshot .ok]
 
-/-- The defect repaired by 6482ad3, on the code as it was (`fixed = false`): the stale staged
-segment is packaged into the incremental snapshot after the load's full snapshot (resp. after the
-install) and the newest snapshot no longer restores; with the fix the same histories restart. -/
 theorem stale_staged_wal_witness :
-    (step false (run false {} witnessHistory) .restart).2 = "corrupt" ∧
-    resolve (run false {} witnessHistory).snaps = none ∧
-    (step false (run false {} witnessInstall) .restart).2 = "corrupt" ∧
-    (step true (run true {} witnessHistory) .restart).2 = "ok" ∧
-    (run true {} witnessHistory).db = [3, 4, 5] ∧
-    (step true (run true {} witnessInstall) .restart).2 = "ok" := by decide
+    (step 0 (run 0 {} staleAfterLoad) .restart).2 = "corrupt" ∧
+    resolve (run 0 {} staleAfterLoad).snaps = none ∧
+    (step 0 (run 0 {} staleAfterInstall) .restart).2 = "corrupt" ∧
+    (step 2 (run 2 {} staleAfterLoad) .restart).2 = "ok" ∧
+    (run 2 {} staleAfterLoad).db = [3, 4, 5] ∧
+    (step 2 (run 2 {} staleAfterInstall) .restart).2 = "ok" := by decide
+
+/-- bb0a5c5 (level 1 → 2): a full snapshot of database A is captured; a load of B is applied before
+it is persisted; the sink installs full(A) and clears FULL_NEEDED; from here only the
+modification-time guard remembers the load. The next (full) snapshot is captured but not persisted
+— fsmSnapshot records the new modification time — and the one after it is taken as an incremental
+on top of full(A). -/
+def guardLost : List Op :=
+  [.write 1, .snapBegin, .load [2], .snapEnd .ok, .write 3, .snapBegin, .snapEnd .notInvoked,
+   .write 4, .snapshot .ok]
+
+theorem mtime_guard_lost_witness :
+    (step 1 (run 1 {} guardLost) .restart).2 = "corrupt" ∧
+    (step 2 (run 2 {} guardLost) .restart).2 = "ok" ∧ (run 2 {} guardLost).db = [2, 3, 4] := by decide
+
+/-- On the current code the window "full(A) installed after load B, flag cleared" is protected by
+the modification-time guard alone: the very next FSM.Snapshot() is a full one. -/
+theorem after_racing_close_next_is_full :
+    let s := run 2 {} [.write 1, .snapBegin, .load [2], .snapEnd .ok, .write 3]
+    s.fullNeeded = false ∧ s.modified = true ∧ (snapBegin 2 s).2 = "full" := by decide
 
 /-! ### tie to the source (regenerated on every run) -/
 
-/-- the three places the model drops the staging directory are in the source: the full-snapshot
-branch of fsmSnapshot (before the checkpoint, keeping a full snapshot required), fsmRestore
+/-- the places the model drops the staging directory / raises the requirement are in the source:
+the full-snapshot branch of fsmSnapshot (unconditionally, before the checkpoint), fsmRestore
 (after the swap) and Open -/
 theorem staging_dropped_in_source :
     RqModel.Gen.StoreStaging.fullSnapshotDropsStaging = some true ∧
+    RqModel.Gen.StoreStaging.fullSnapshotAlwaysRequiresFull = some true ∧
     RqModel.Gen.StoreStaging.restoreDropsStaging = some true ∧
     RqModel.Gen.StoreStaging.openDropsStaging = some true := by decide
 
-/-! ### non-vacuity: a history with every kind of operation; its invariant instance is not trivial -/
+/-! ### non-vacuity: a history with every kind of operation -/
 
 def exHistory : List Op :=
   [.write 1, .snapshot .ok, .write 2, .snapshot .notInvoked, .write 3, .snapshot .failBefore, .write 4,
    .snapshot .ok, .reap, .load [5], .write 6, .snapshot .failAfter, .snapshot .ok, .boot [7], .write 8,
-   .snapshot .notInvoked, .install [9], .write 10, .snapshot .ok, .restart]
+   .snapBegin, .write 9, .load [10], .snapEnd .ok, .write 11, .snapBegin, .noop, .snapEnd .ok,
+   .install [12], .write 13, .snapshot .ok, .restart]
 
-example : (run true {} exHistory).db = [9, 10] ∧ (run true {} exHistory).snaps.length = 5 ∧
-    resolve (run true {} exHistory).snaps = some [9, 10] := by decide
+example : (run 2 {} exHistory).db = [12, 13] ∧ resolve (run 2 {} exHistory).snaps = some [12, 13] := by decide
 
 end C04
